@@ -375,3 +375,311 @@ Proof.
     rewrite (build_from_op li S NDl SinL e'), (build_from_op ri S NDr SinR e'). reflexivity.
 Qed.
 End T1.
+
+(* ------------------------------------------------------------------ *)
+(* sorted(key=...) : the stable insertion sort of Base.v                *)
+Lemma insert_by_perm {A} (le : A -> A -> bool) x l : Permutation (insert_by le x l) (x :: l).
+Proof.
+  induction l as [|y l IH]; cbn [insert_by]; [apply Permutation_refl|].
+  destruct (le y x); [|apply Permutation_refl].
+  eapply perm_trans; [apply perm_skip, IH|apply perm_swap].
+Qed.
+
+Lemma sort_by_perm_acc {A} (le : A -> A -> bool) l : forall acc,
+  Permutation (fold_left (fun acc x => insert_by le x acc) l acc) (l ++ acc).
+Proof.
+  induction l as [|x l IH]; intros acc; cbn [fold_left app]; [apply Permutation_refl|].
+  eapply perm_trans; [apply IH|].
+  eapply perm_trans; [apply Permutation_app_head, insert_by_perm|].
+  apply Permutation_sym, Permutation_middle.
+Qed.
+
+Lemma sort_by_perm {A} (le : A -> A -> bool) l : Permutation (sort_by le l) l.
+Proof. unfold sort_by. eapply perm_trans; [apply sort_by_perm_acc|]. rewrite app_nil_r. apply Permutation_refl. Qed.
+
+Fixpoint zsorted (l : list (Z * ix)) : Prop :=
+  match l with
+  | [] => True
+  | x :: l' => (forall y, In y l' -> fst x <= fst y) /\ zsorted l'
+  end.
+
+Lemma insert_by_sorted x l : zsorted l -> zsorted (insert_by z_le x l).
+Proof.
+  induction l as [|y l IH]; cbn [insert_by zsorted]; intros H.
+  - split; [intros ? []|exact I].
+  - destruct H as [H1 H2]. destruct (z_le y x) eqn:E; unfold z_le in E; cbn [zsorted].
+    + apply Z.leb_le in E. split; [|apply IH, H2].
+      intros z Hz. apply (Permutation_in _ (insert_by_perm z_le x l)) in Hz.
+      destruct Hz as [<-|Hz]; [exact E|apply H1, Hz].
+    + apply Z.leb_gt in E. split; [|split; assumption].
+      intros z [<-|Hz]; [lia|]. specialize (H1 z Hz). lia.
+Qed.
+
+Lemma sort_by_sorted l : zsorted (sort_by z_le l).
+Proof.
+  unfold sort_by. assert (G : forall acc, zsorted acc -> zsorted (fold_left (fun acc x => insert_by z_le x acc) l acc)).
+  { induction l as [|x l IH]; intros acc H; cbn [fold_left]; [exact H|]. apply IH, insert_by_sorted, H. }
+  apply G. exact I.
+Qed.
+
+Fixpoint ksorted (key : ix -> Z) (l : list ix) : Prop :=
+  match l with
+  | [] => True
+  | x :: l' => (forall y, In y l' -> key x <= key y) /\ ksorted key l'
+  end.
+
+Lemma zsorted_map_snd key l : (forall p, In p l -> fst p = key (snd p)) -> zsorted l -> ksorted key (map snd l).
+Proof.
+  induction l as [|p l IH]; cbn [map zsorted ksorted]; intros Hk H; [exact I|].
+  destruct H as [H1 H2]. split.
+  - intros y Hy. apply in_map_iff in Hy. destruct Hy as (q & <- & Hq).
+    rewrite <- (Hk p), <- (Hk q); [apply H1, Hq|right; exact Hq|left; reflexivity].
+  - apply IH; [|exact H2]. intros q Hq. apply Hk. right; exact Hq.
+Qed.
+
+Lemma ksorted_mono key key' l :
+  (forall x y, In x l -> In y l -> key x <= key y -> key' x <= key' y) -> ksorted key l -> ksorted key' l.
+Proof.
+  induction l as [|x l IH]; cbn [ksorted]; intros Hm H; [exact I|]. destruct H as [H1 H2]. split.
+  - intros y Hy. apply Hm; [left; reflexivity|right; exact Hy|apply H1, Hy].
+  - apply IH; [|exact H2]. intros a b Ha Hb. apply Hm; right; assumption.
+Qed.
+
+Lemma ksorted_filter key f l : ksorted key l -> ksorted key (filter f l).
+Proof.
+  induction l as [|x l IH]; cbn [ksorted filter]; intros H; [exact I|]. destruct H as [H1 H2].
+  destruct (f x); [|apply IH, H2]. cbn [ksorted]. split; [|apply IH, H2].
+  intros y Hy. apply filter_In in Hy. apply H1, Hy.
+Qed.
+
+Lemma ksorted_app key a b : ksorted key a -> ksorted key b ->
+  (forall x y, In x a -> In y b -> key x <= key y) -> ksorted key (a ++ b).
+Proof.
+  induction a as [|x a IH]; cbn [ksorted app]; intros Ha Hb Hc; [exact Hb|]. destruct Ha as [H1 H2]. split.
+  - intros y Hy. apply in_app_iff in Hy. destruct Hy as [Hy|Hy]; [apply H1, Hy|apply Hc; [left; reflexivity|exact Hy]].
+  - apply IH; [exact H2|exact Hb|]. intros a' b' Ha' Hb'. apply Hc; [right; exact Ha'|exact Hb'].
+Qed.
+
+(* two sorted arrangements of the same elements under an injective key coincide *)
+Lemma ksorted_unique key l1 : forall l2, Permutation l1 l2 -> ksorted key l1 -> ksorted key l2 ->
+  (forall a b, In a l1 -> In b l1 -> key a = key b -> a = b) -> l1 = l2.
+Proof.
+  induction l1 as [|a l1 IH]; intros l2 HP S1 S2 Hinj.
+  - apply Permutation_nil in HP. subst. reflexivity.
+  - destruct l2 as [|b l2]; [apply Permutation_sym, Permutation_nil in HP; discriminate|].
+    assert (E : a = b).
+    { destruct (Nat.eq_dec a b) as [E|NE]; [exact E|].
+      assert (Ha : In a (b :: l2)) by (apply (Permutation_in _ HP); left; reflexivity).
+      assert (Hb : In b (a :: l1)) by (apply (Permutation_in _ (Permutation_sym HP)); left; reflexivity).
+      destruct Ha as [Ha|Ha]; [congruence|]. destruct Hb as [Hb|Hb]; [congruence|].
+      cbn [ksorted] in S1, S2. destruct S1 as [S1 _]. destruct S2 as [S2 _].
+      specialize (S1 b Hb). specialize (S2 a Ha).
+      apply Hinj; [left; reflexivity|right; exact Hb|lia]. }
+    subst b. f_equal. cbn [ksorted] in S1, S2. apply IH.
+    + apply (Permutation_cons_inv HP).
+    + tauto.
+    + tauto.
+    + intros x y Hx Hy. apply Hinj; right; assumption.
+Qed.
+
+(* ---- the key of get_tensordot_perm: position in l_inds + r_inds ---- *)
+Lemma find_pos_app_l x a b : In x a -> find_pos x (a ++ b) = find_pos x a.
+Proof.
+  induction a as [|y a IH]; cbn [app find_pos]; [intros []|]. intros H.
+  destruct (Nat.eqb_spec y x) as [->|Hne]; [reflexivity|].
+  rewrite IH; [reflexivity|]. destruct H as [H|H]; [congruence|exact H].
+Qed.
+Lemma find_pos_app_r x a b : ~ In x a ->
+  find_pos x (a ++ b) = match find_pos x b with Some p => Some (length a + p)%nat | None => None end.
+Proof.
+  induction a as [|y a IH]; cbn [app find_pos length]; intros H.
+  - destruct (find_pos x b); reflexivity.
+  - destruct (Nat.eqb_spec y x) as [->|Hne]; [exfalso; apply H; left; reflexivity|].
+    rewrite IH by (intros Hin; apply H; right; exact Hin).
+    destruct (find_pos x b); reflexivity.
+Qed.
+
+Lemma find_z_inj L a b : In a L -> find_z a L = find_z b L -> a = b.
+Proof.
+  intros Ha. unfold find_z. destruct (find_pos_in a L Ha) as [p Ep]. rewrite Ep.
+  destruct (find_pos b L) as [q|] eqn:Eq; [|lia].
+  intros H. assert (p = q) by lia. subst q.
+  apply find_pos_some in Ep, Eq. destruct Ep as [_ <-]. destruct Eq as [_ <-]. reflexivity.
+Qed.
+
+Lemma NoDup_app_disj {A} (a b : list A) x : NoDup (a ++ b) -> In x a -> In x b -> False.
+Proof.
+  induction a as [|y a IH]; cbn [app]; intros ND Ha Hb; [destruct Ha|].
+  inversion ND as [|? ? Hn ND']; subst. destruct Ha as [->|Ha].
+  - apply Hn, in_app_iff. right; exact Hb.
+  - apply (IH ND' Ha Hb).
+Qed.
+
+Lemma ksorted_self_gen suf : forall pre, NoDup (pre ++ suf) ->
+  ksorted (fun j => find_z j (pre ++ suf)) suf.
+Proof.
+  induction suf as [|x suf IH]; intros pre ND; cbn [ksorted]; [exact I|]. split.
+  - intros y Hy. unfold find_z.
+    rewrite (find_pos_mid pre x suf (NoDup_mid_notin pre x suf ND)).
+    assert (Hyp : ~ In y pre).
+    { intros Hin. apply (NoDup_app_disj pre (x :: suf) y ND Hin). right; exact Hy. }
+    rewrite (find_pos_app_r y pre (x :: suf) Hyp).
+    destruct (find_pos y (x :: suf)) as [p|] eqn:E; [lia|].
+    apply find_pos_none in E. exfalso. apply E. right; exact Hy.
+  - specialize (IH (pre ++ [x])). rewrite <- app_assoc in IH. apply IH, ND.
+Qed.
+
+Lemma ksorted_symdiff li ri : NoDup li -> NoDup ri ->
+  ksorted (fun j => find_z j (li ++ ri)) (symdiff li ri).
+Proof.
+  intros NDl NDr. unfold symdiff.
+  assert (KL : forall x, In x li -> find_z x (li ++ ri) = find_z x li).
+  { intros x Hx. unfold find_z. rewrite find_pos_app_l by exact Hx. reflexivity. }
+  assert (KR : forall x, In x ri -> ~ In x li ->
+               find_z x (li ++ ri) = Z.of_nat (length li) + find_z x ri).
+  { intros x Hx Hn. unfold find_z. rewrite find_pos_app_r by exact Hn.
+    destruct (find_pos_in x ri Hx) as [p ->]. lia. }
+  apply ksorted_app.
+  - apply ksorted_filter. apply (ksorted_mono (fun j => find_z j li)).
+    + intros x y Hx Hy H. rewrite !KL by assumption. exact H.
+    + apply (ksorted_self_gen li []). exact NDl.
+  - apply (ksorted_mono (fun j => find_z j ri)).
+    + intros x y Hx Hy H. apply filter_In in Hx, Hy.
+      destruct Hx as [Hx Hx']. destruct Hy as [Hy Hy']. apply negb_true_iff, memb_false in Hx', Hy'.
+      rewrite !KR by assumption. lia.
+    + apply ksorted_filter. apply (ksorted_self_gen ri []). exact NDr.
+  - intros x y Hx Hy. apply filter_In in Hx, Hy.
+    destruct Hx as [Hx _]. destruct Hy as [Hy Hy']. apply negb_true_iff, memb_false in Hy'.
+    rewrite (KL x Hx), (KR y Hy Hy'). unfold find_z.
+    destruct (find_pos_in x li Hx) as [p Ep]. rewrite Ep. apply find_pos_some in Ep.
+    destruct (find_pos_in y ri Hy) as [q ->]. lia.
+Qed.
+
+(* get_tensordot_perm's td_inds is the order numpy.tensordot produces *)
+Theorem td_inds_is_symdiff li ri pi : NoDup li -> NoDup ri -> NoDup pi ->
+  (forall j, In j pi <-> In j (symdiff li ri)) ->
+  td_inds li ri pi = symdiff li ri.
+Proof.
+  intros NDl NDr NDp Hpi. unfold td_inds.
+  set (key := fun j => find_z j (li ++ ri)).
+  set (sp := sort_by z_le (map (fun j => (key j, j)) pi)).
+  assert (HP : Permutation sp (map (fun j => (key j, j)) pi)) by apply sort_by_perm.
+  apply (ksorted_unique key).
+  - eapply perm_trans; [apply Permutation_map, HP|].
+    rewrite map_map. cbn [snd]. rewrite map_id.
+    apply NoDup_Permutation; [exact NDp|apply NoDup_symdiff; assumption|exact Hpi].
+  - apply zsorted_map_snd; [|apply sort_by_sorted].
+    intros p Hp. apply (Permutation_in _ HP) in Hp. apply in_map_iff in Hp.
+    destruct Hp as (j & <- & _). reflexivity.
+  - apply ksorted_symdiff; assumption.
+  - intros a b Ha _ H. apply (find_z_inj (li ++ ri)); [|exact H].
+    assert (Ha' : In a pi).
+    { apply (Permutation_in _ (Permutation_map snd HP)) in Ha. rewrite map_map in Ha. cbn [snd] in Ha.
+      rewrite map_id in Ha. exact Ha. }
+    apply Hpi, in_symdiff in Ha'. apply in_app_iff. tauto.
+Qed.
+
+Lemma list_eqb_nat_eq a : forall b, list_eqb Nat.eqb a b = true -> a = b.
+Proof.
+  induction a as [|x a IH]; intros [|y b]; cbn [list_eqb]; intros H; try discriminate; [reflexivity|].
+  apply andb_true_iff in H. destruct H as [H1 H2]. apply Nat.eqb_eq in H1. subst y. f_equal. apply IH, H2.
+Qed.
+
+Lemma memb_ext a b j : (forall x, In x a <-> In x b) -> memb j a = memb j b.
+Proof.
+  intros H. destruct (memb j b) eqn:E.
+  - apply memb_In, H, memb_In, E.
+  - apply memb_false. rewrite H. apply memb_false, E.
+Qed.
+
+Lemma nth_posn_map (d : ix -> nat) l x : In x l -> nth (posn l x) (map d l) 0%nat = d x.
+Proof.
+  intros Hx. destruct (posn_in x l Hx) as [Hlt Hn].
+  rewrite (nth_indep (map d l) 0%nat (d 0%nat)) by (rewrite map_length; exact Hlt).
+  rewrite map_nth. f_equal. exact Hn.
+Qed.
+
+Lemma nth_map_seq (g : nat -> nat) m i : (i < m)%nat -> nth i (map g (seq 0 m)) 0%nat = g i.
+Proof.
+  intros H. rewrite (nth_indep (map g (seq 0 m)) 0%nat (g 0%nat)) by (rewrite map_length, seq_length; exact H).
+  rewrite map_nth, seq_nth by exact H. reflexivity.
+Qed.
+
+(* ------------------------------------------------------------------ *)
+(* (T2) tensordot followed by the transpose of get_tensordot_perm is the einsum
+   with the declared axis order pi                                          *)
+Section T2.
+Variable n : net.
+Notation dim := (dim n).
+
+(* Program.tensordot_perm, with the three index lists as arguments *)
+Definition td_perm (li ri pi : list ix) : option (list nat) :=
+  let td := td_inds li ri pi in
+  if list_eqb Nat.eqb td pi then None
+  else Some (map (fun j => match find_pos j td with Some p => p | None => 0%nat end) pi).
+
+Lemma td_perm_is_program_perm sl isroot l r :
+  tensordot_perm n sl isroot (Node l r)
+  = td_perm (inds_sub n sl l) (inds_sub n sl r) (inds n sl isroot (Node l r)).
+Proof. reflexivity. Qed.
+
+Lemma esummed2_ext li ri pi pi' : (forall j, In j pi <-> In j pi') -> esummed2 li ri pi = esummed2 li ri pi'.
+Proof.
+  intros H. unfold esummed2. f_equal. apply filter_ext. intros j. f_equal. apply memb_ext, H.
+Qed.
+
+Theorem transpose_is_einsum (bg : env) li ri pi (A B : ptensor) :
+  NoDup li -> NoDup ri -> NoDup pi -> (forall j, In j pi <-> In j (symdiff li ri)) ->
+  forall pm X, (forall pos, length pos = length (symdiff li ri) ->
+                  snd X pos = einsum2 n bg li ri (symdiff li ri) A B pos) ->
+  fst X = map dim (symdiff li ri) ->
+  pm = map (posn (symdiff li ri)) pi ->
+  fst (transpose X pm) = map dim pi /\
+  forall pos, length pos = length pi -> snd (transpose X pm) pos = einsum2 n bg li ri pi A B pos.
+Proof.
+  intros NDl NDr NDp Hpi pm X Hv Hs Epm.
+  set (td := symdiff li ri) in *.
+  assert (NDtd : NoDup td) by (apply NoDup_symdiff; assumption).
+  destruct X as [sa fa]. cbn [fst snd] in Hv, Hs. subst sa. unfold transpose. cbn [fst snd]. split.
+  - rewrite Epm, map_map. apply map_ext_in. intros j Hj. apply nth_posn_map, Hpi, Hj.
+  - intros pos HL. rewrite map_length.
+    set (q := map _ (seq 0 (length td))).
+    assert (Hq : length q = length td) by (unfold q; rewrite map_length, seq_length; reflexivity).
+    rewrite (Hv q Hq). unfold einsum2.
+    rewrite (esummed2_ext li ri td pi) by (intros j; symmetry; apply Hpi).
+    apply sum_over_env; [apply prod_respects|].
+    intros k. destruct (in_dec Nat.eq_dec k td) as [Hk|Hk].
+    + destruct (posn_in k td Hk) as [Hlt Hn].
+      set (i := posn td k) in *.
+      assert (E1 : env_of bg td q k = nth i q 0%nat).
+      { rewrite <- Hn at 1. apply env_of_nth; assumption. }
+      rewrite E1. unfold q. rewrite nth_map_seq by exact Hlt.
+      assert (Hkp : In k pi) by (apply Hpi, Hk).
+      assert (Hi : In i pm) by (rewrite Epm; apply in_map_iff; exists k; split; [reflexivity|exact Hkp]).
+      destruct (find_pos_in i pm Hi) as [k' Ek']. rewrite Ek'.
+      rewrite Epm in Ek'. destruct (find_pos_map_some _ _ _ _ Ek') as [Hk' Hp'].
+      assert (Hin' : In (nth k' pi 0%nat) td) by (apply Hpi, nth_In, Hk').
+      destruct (posn_in _ _ Hin') as [_ Hn'].
+      assert (Ek : nth k' pi 0%nat = k).
+      { rewrite <- Hn, <- Hn'. f_equal. exact Hp'. }
+      rewrite <- Ek at 1. symmetry. apply env_of_nth; assumption.
+    + rewrite !env_of_notin; [reflexivity| |exact Hk]. intros H. apply Hk, Hpi, H.
+Qed.
+
+Theorem tdot_transpose_is_einsum (bg : env) li ri pi (A B : ptensor) :
+  NoDup li -> NoDup ri -> NoDup pi -> (forall j, In j pi <-> In j (symdiff li ri)) ->
+  let la := fst (tdot_axes_from 0 li ri) in
+  let ra := snd (tdot_axes_from 0 li ri) in
+  let X := tdot (map dim li, A) (map dim ri, B) la ra in
+  let X' := match td_perm li ri pi with Some pm => transpose X pm | None => X end in
+  fst X' = map dim pi /\
+  forall pos, length pos = length pi -> snd X' pos = einsum2 n bg li ri pi A B pos.
+Proof.
+  intros NDl NDr NDp Hpi la ra X X'.
+  destruct (tdot_is_einsum n bg li ri A B NDl NDr) as [Hs Hv]. fold la ra X in Hs, Hv.
+  unfold X', td_perm. rewrite (td_inds_is_symdiff li ri pi NDl NDr NDp Hpi).
+  destruct (list_eqb Nat.eqb (symdiff li ri) pi) eqn:E.
+  - apply list_eqb_nat_eq in E. rewrite <- E. split; [exact Hs|exact Hv].
+  - apply (transpose_is_einsum bg li ri pi A B NDl NDr NDp Hpi _ X Hv Hs). reflexivity.
+Qed.
+End T2.
